@@ -962,9 +962,10 @@ func mapKeys(mt *types.Map) *mapKeySet {
 	}
 	base := "map$" + typeKey(mt.Key()) + "$" + typeKey(mt.Elem())
 	m := &mapKeySet{has: base + ".has", hasSort: arrSort(SInt, arrSort(kc[0].Sort, SBool)), length: base + ".len", ksort: kc[0].Sort}
-	if isObjType(mt.Elem()) {
+	if _, isArr := under(mt.Elem()).(*types.Array); isArr {
 		return m
 	}
+	// struct values are stored flattened, one value array per field component (map[int]registeredHandler)
 	for _, c := range comps(mt.Elem()) {
 		m.vals = append(m.vals, keySort{base + ".val" + c.Suffix, arrSort(SInt, arrSort(kc[0].Sort, c.Sort))})
 	}
@@ -1009,7 +1010,7 @@ func (tr *Trans) lookup(x *ssa.Lookup) {
 	mv := tr.val(x.X)
 	mt := under(x.X.Type()).(*types.Map)
 	mk := mapKeys(mt)
-	if mk == nil || len(mk.vals) == 0 && !isObjType(mt.Elem()) || isObjType(mt.Elem()) {
+	if mk == nil || len(mk.vals) == 0 {
 		tr.e.note("%s: map lookup on unmodelled map type %s", tr.label, mt)
 		tr.vals[x] = tr.freshVal(x.Type(), "lookup", tr.st, tr.rc)
 		return
